@@ -428,7 +428,8 @@ func main() {
 					for _, id := range ids {
 						for _, il := range ils {
 							cases = append(cases, ccase{Mode: mode, EBGP: ebgp, IDs: id, Order: il})
-							if !r.Quick() {
+							// back-to-back variant (no barrier between the steps): all in the thorough tier, every 6th in the quick one
+							if !r.Quick() || len(cases)%6 == 0 {
 								cases = append(cases, ccase{Mode: mode, EBGP: ebgp, IDs: id, Order: il, Unsynced: true})
 							}
 						}
